@@ -153,7 +153,6 @@ def _jacobian_call(ctx, m, hname):
 def meas_dep(ctx):
     ctx.rule('MEAS-DEP', 'attributes the residual depends on reach the Jacobian call, and the '
              'corresponding Jacobian parameter reaches its result')
-    ctx.rule('MEAS-COND', 'lever-arm condition in the residual equals the one in the Jacobian')
     emc = ctx.repo.klass('error_model.InsErrorModel')
     for c, m in _subclasses(ctx):
         rets = _returned_names(m)
@@ -197,15 +196,6 @@ def meas_dep(ctx):
                        "%s: parameter %s reaches the result" % (jac.name, bound[at]), f=jac,
                        node=rj[-1], key='reach-%s' % bound[at],
                        why="Jacobian %s ignores its parameter %s" % (jac.name, bound[at]))
-                # MEAS-COND
-                zc = _conds_on(m.node, 'self.' + at)
-                jc = _conds_on(jac.node, bound[at])
-                zc = {x.replace('self.' + at, bound[at]) for x in zc}
-                ctx.ob('MEAS-COND', zc == jc, None,
-                       "%s: lever-arm term guarded identically in residual and Jacobian"
-                       % c.name, f=m, node=call, key='cond-%s' % at,
-                       why="residual adds the %s term under %s, Jacobian under %s"
-                           % (at, sorted(zc), sorted(jc)))
         ctx.ob('MEAS-DEP', True, None, '%s: D(z) = %s subset of D(H) = %s'
                % (c.name, sorted(zattrs), sorted(bound)), f=m, node=call, key='summary')
 
